@@ -104,6 +104,9 @@ func (pc *pairCase) attrs(kind string) map[string]string {
 	if pc.Attr != "" {
 		a["path"] = pc.Attr
 	}
+	if len(pc.Text) > 1 && pc.Text[0] == '0' && pc.Text[1] >= '0' && pc.Text[1] <= '9' {
+		a["shape"] = "leading-zero"
+	}
 	return a
 }
 
@@ -368,6 +371,10 @@ func valuesFor(class string, l ref.SchemaLeaf, thorough bool) []valueSpec {
 		}
 		if minusOneAttrs[l.AttrPath()] {
 			vs = append(vs, dec("-1")...)
+		}
+		if strings.HasSuffix(l.AttrPath(), ".mode") {
+			// file modes are idiomatically written with a leading zero
+			vs = append(vs, dec("0440")...)
 		}
 		return vs
 	case "float":
